@@ -27,15 +27,15 @@ def jStr (l : List Nat) : Json := Json.str (String.ofList (l.map Char.ofNat))
 def jOptStr : Option (List Nat) → Json | none => Json.null | some l => jStr l
 def jInt (i : Int) : Json := Json.num (JsonNumber.fromInt i)
 
-def T : Tables2 :=
-  { sym := ⟨Gen.cryptoSymAlgs, Gen.cryptoModes, Gen.cryptoSymPadding⟩, encHashes := Gen.cryptoEncHashes,
-    macHashes := Gen.cryptoMacHashes, dsa := Gen.cryptoDsa, asymPadding := Gen.cryptoAsymPadding,
-    asymAlgs := Gen.cryptoAsymAlgs, keySizes := Gen.cryptoSymKeySizes }
-
 def reasonStr : Reason → String
   | .invalidField => "InvalidField" | .cryptographicFailure => "CryptographicFailure"
   | .operationNotSupported => "OperationNotSupported" | .encodingOptionError => "EncodingOptionError"
   | .internal => "internal"
+
+def T : Tables2 :=
+  { sym := ⟨Gen.cryptoSymAlgs, Gen.cryptoModes, Gen.cryptoSymPadding⟩, encHashes := Gen.cryptoEncHashes,
+    macHashes := Gen.cryptoMacHashes, dsa := Gen.cryptoDsa, asymPadding := Gen.cryptoAsymPadding,
+    asymAlgs := Gen.cryptoAsymAlgs, keySizes := Gen.cryptoSymKeySizes }
 
 def jErr (e : PErr) : Json := Json.mkObj [("err", Json.str (reprStr e)), ("reason", Json.str (reasonStr e.reason))]
 
@@ -45,17 +45,20 @@ def srcStr : Src → String
 def kindStr : DKind → String
   | .hash => "hash" | .hkdf => "hkdf" | .pbkdf2 => "pbkdf2" | .kbkdf => "kbkdf" | .symEncrypt => "sym" | .rsaEncrypt => "rsa"
 
+/-- `onFailure`: what a refusal of the RSA primitive itself becomes -/
 def jAsym : AsymScheme → Json
-  | .oaep h => Json.mkObj [("scheme", Json.str "OAEP"), ("hash", jStr h), ("mgf", jStr h), ("label", Json.null)]
-  | .pkcs1v15 => Json.mkObj [("scheme", Json.str "PKCS1v15")]
+  | .oaep h => Json.mkObj [("scheme", Json.str "OAEP"), ("hash", jStr h), ("mgf", jStr h), ("label", Json.null),
+      ("onFailure", Json.str (reasonStr asymOpFailure)), ("onKeyFailure", Json.str (reasonStr asymKeyFailure))]
+  | .pkcs1v15 => Json.mkObj [("scheme", Json.str "PKCS1v15"),
+      ("onFailure", Json.str (reasonStr asymOpFailure)), ("onKeyFailure", Json.str (reasonStr asymKeyFailure))]
 
 def jSymPlan (p : Crypto.Plan) : Json :=
   Json.mkObj [("alg", Json.num p.alg), ("mode", jOptNat p.mode), ("iv", jOptNat p.iv),
     ("ivGenerated", Json.bool p.ivGenerated), ("padding", jOptNat p.padding), ("gcm", Json.bool p.gcm),
     ("tagLen", jOptNat p.tagLen), ("block", Json.num p.blockBits)]
 
-def jSig (p : SigPlan) : Json :=
-  Json.mkObj [("pad", Json.str (match p.pad with | .pss => "PSS" | .pkcs1v15 => "PKCS1v15")), ("hash", jStr p.hash),
+def jSig (p : SigPlan) (onFailure onKeyFailure : Reason) : Json :=
+  Json.mkObj [("onFailure", Json.str (reasonStr onFailure)), ("onKeyFailure", Json.str (reasonStr onKeyFailure)), ("pad", Json.str (match p.pad with | .pss => "PSS" | .pkcs1v15 => "PKCS1v15")), ("hash", jStr p.hash),
     ("mgf", match p.pad with | .pss => jStr p.hash | .pkcs1v15 => Json.null),
     ("salt", match p.pad with | .pss => Json.str "MAX" | .pkcs1v15 => Json.null)]
 
@@ -136,17 +139,18 @@ def step (line : String) : String :=
       | .ok "mac" =>
         match macPlan T (← fNat j "alg") with
         | .error e => pure (jErr e)
-        | .ok (.hmac h n) => pure (Json.mkObj [("family", Json.str "HMAC"), ("hash", jStr h), ("outLen", Json.num n)])
+        | .ok (.hmac h n) => pure (Json.mkObj [("family", Json.str "HMAC"), ("hash", jStr h), ("outLen", Json.num n),
+            ("onFailure", Json.str (reasonStr macOpFailure))])
         | .ok (.cmac a cls n) => pure (Json.mkObj [("family", Json.str "CMAC"), ("alg", Json.num a),
-            ("cls", Json.str cls), ("outLen", Json.num n)])
+            ("cls", Json.str cls), ("outLen", Json.num n), ("onFailure", Json.str (reasonStr macOpFailure))])
       | .ok "sign" =>
         match signPlan T (← pSig j) with
         | .error e => pure (jErr e)
-        | .ok pl => pure (jSig pl)
+        | .ok pl => pure (jSig pl signOpFailure signKeyFailure)
       | .ok "verify" =>
         match verifyPlan T (← pSig j) with
         | .error e => pure (jErr e)
-        | .ok pl => pure (jSig pl)
+        | .ok pl => pure (jSig pl verifyOpFailure verifyKeyFailure)
       | .ok "aenc" =>
         match asymEncPlan T (← pAsym j) with
         | .error e => pure (jErr e)
@@ -158,7 +162,8 @@ def step (line : String) : String :=
       | .ok "wrap" =>
         match wrapPlan (← fNat j "method") (← fNat j "mode") with
         | .error e => pure (jErr e)
-        | .ok .aesKeyWrap => pure (Json.mkObj [("prim", Json.str "aes_key_wrap")])
+        | .ok .aesKeyWrap => pure (Json.mkObj [("prim", Json.str "aes_key_wrap"),
+            ("onFailure", Json.str (reasonStr wrapOpFailure))])
       | .ok "getwrap" =>
         let params ← match (← fld j "params").getBool? with | .ok b => pure b | .error e => throw e
         let mode ← fNat j "mode"
@@ -169,12 +174,14 @@ def step (line : String) : String :=
         match createSymPlan T (← fNat j "alg") (← reqInt j "length") with
         | .error e => pure (jErr e)
         | .ok pl => pure (Json.mkObj [("alg", Json.num pl.alg), ("cls", Json.str pl.cls),
-            ("bytes", Json.num pl.randomBytes), ("format", Json.num pl.format)])
+            ("bytes", Json.num pl.randomBytes), ("format", Json.num pl.format),
+            ("onFailure", Json.str (reasonStr createSymFailure))])
       | .ok "pair" =>
         match createPairPlan T (← fNat j "alg") (← reqInt j "length") with
         | .error e => pure (jErr e)
         | .ok pl => pure (Json.mkObj [("exponent", Json.num pl.publicExponent), ("keySize", jInt pl.keySize),
-            ("pubFormat", Json.num pl.publicFormat), ("privFormat", Json.num pl.privateFormat)])
+            ("pubFormat", Json.num pl.publicFormat), ("privFormat", Json.num pl.privateFormat),
+            ("onFailure", Json.str (reasonStr createPairFailure))])
       | _ => throw "cmd"
     match r with
     | .ok o => o.compress
